@@ -64,7 +64,7 @@ def plan(tier, seed):
     if tier == "quick":
         n_rt, n_pipe, n_sl = 20, 6, 2
     else:
-        n_rt, n_pipe, n_sl = 330, 70, 16
+        n_rt, n_pipe, n_sl = 280, 50, 10
     return [{"shard": s, "seed": seed, "kind": "mixed", "n_rt": n_rt, "n_pipe": n_pipe, "n_sl": n_sl,
              "n": n_rt + n_pipe + n_sl} for s in range(16)]
 
@@ -819,8 +819,9 @@ def roundtrip_case(rec, ctx, i, spec):
     rec.count("lib_eq_evaluated")
     rec.observe("lib_eq", str(eq))
     if not d.items and not d2.items and eq != (True, True):
-        rec.violation(f"{mech}:library-eq-disagrees",
-                      f"own comparator found no difference but original == reloaded gave {eq}", case, i)
+        # secondary witness only: never a violation by itself, but 'held' cannot be claimed either (see finalize)
+        rec.count("lib_eq_sees_difference_comparator_does_not")
+        rec.observe("lib_eq_disagreements", f"{kind} mask={mask} shard={spec['shard']} index={i}: {eq}")
     elif d.items and eq == (True, True):
         rec.count("lib_eq_blind_to_difference")
     rec.observe("kinds", kind)
@@ -1214,6 +1215,9 @@ def _subset_coverage(sets):
 
 def finalize(counters, sets, tier):
     out = []
+    if counters.get("lib_eq_sees_difference_comparator_does_not", 0):
+        out.append("the library's == reported a difference after a round trip in which the structural comparator "
+                   f"found none: {sets.get('lib_eq_disagreements', [])[:3]}")
     cov = _subset_coverage(sets)
     for kind, (seen, total) in cov.items():
         need = total if tier == "thorough" else 40
